@@ -201,6 +201,93 @@ def superiorStatus (r : Rec) (rules : List RuleM) (rule : RuleM) (chain : List G
     | _, _ => false
   (covered, interleaves)
 
+/-! ### EXTENDERS: "plus any genes admitted by the rule's EXTENDERS clause" -/
+
+/-- a record consisting of the gene alone (what `can_extend_to` evaluates the clause in) -/
+def selfEnv (g : GeneInfo) (cutoff : Int) : Env :=
+  Env.ofLocs [g.id] [g.id] (fun h => if h == g.id then g.hits else []) (fun _ => g.loc) cutoff 0
+
+/-- the gene satisfies the EXTENDERS clause, by the documented meaning of the condition -/
+def extOK (rule : RuleM) (g : GeneInfo) : Bool :=
+  match rule.extenders with
+  | some c => sem (selfEnv g rule.cutoff) g.id c
+  | none => false
+
+/-- the walk outwards from the core, as rules: genes inside the core are no candidates; the walk ends at
+    the first gene further than the cutoff from the reference gene; a gene within the cutoff that
+    satisfies the clause is admitted and becomes the reference; one that does not is stepped over -/
+inductive ExtWalk (c : Int) (dist : GeneInfo → GeneInfo → Int) (ext inCore : GeneInfo → Bool) :
+    GeneInfo → List GeneInfo → List GeneInfo → Prop
+  | done (ref : GeneInfo) : ExtWalk c dist ext inCore ref [] []
+  | inside {ref x rest adm} : inCore x = true → ExtWalk c dist ext inCore ref rest adm →
+      ExtWalk c dist ext inCore ref (x :: rest) adm
+  | stop {ref x rest} : inCore x = false → dist x ref > c → ExtWalk c dist ext inCore ref (x :: rest) []
+  | accept {ref x rest adm} : inCore x = false → dist x ref ≤ c → ext x = true →
+      ExtWalk c dist ext inCore x rest adm → ExtWalk c dist ext inCore ref (x :: rest) (x :: adm)
+  | stepOver {ref x rest adm} : inCore x = false → dist x ref ≤ c → ext x = false →
+      ExtWalk c dist ext inCore ref rest adm → ExtWalk c dist ext inCore ref (x :: rest) adm
+
+/-- the admitted genes, computed -/
+def specWalk (c : Int) (dist : GeneInfo → GeneInfo → Int) (ext inCore : GeneInfo → Bool) :
+    GeneInfo → List GeneInfo → List GeneInfo
+  | _, [] => []
+  | ref, x :: rest =>
+    if inCore x then specWalk c dist ext inCore ref rest
+    else if dist x ref > c then []
+    else if ext x then x :: specWalk c dist ext inCore x rest
+    else specWalk c dist ext inCore ref rest
+
+def ltLoc' (a b : Loc) : Bool := (featureLt a b).toOption.getD false
+
+/-- the genes before (nearest first) and after the core in gene order -/
+def walkBack (r : Rec) (core : Loc) : List GeneInfo :=
+  (r.genes.take (r.genes.takeWhile fun g => ltLoc' g.loc core).length).reverse
+def walkForward (r : Rec) (core : Loc) : List GeneInfo :=
+  r.genes.drop (r.genes.takeWhile fun g => ltLoc' g.loc core).length
+
+/-- on a linear record: the hull of a chain (`h`) together with the genes its rule's EXTENDERS clause
+    admits, walking outwards from the first / last gene inside the hull -/
+def extendedHull (r : Rec) (rule : RuleM) (h : Iv) : Option Iv :=
+  let core : Loc := .simple ⟨h.1, h.2, .fwd⟩
+  let inside := r.genes.filter fun g => locationContainsOther core g.loc
+  match inside.head?, inside.getLast? with
+  | some first, some last =>
+    let dist := fun (a b : GeneInfo) => specDistFull 0 a.loc b.loc
+    let back := specWalk rule.cutoff dist (extOK rule) (fun g => locationContainsOther core g.loc) first (walkBack r core)
+    let h1 := hullIv (core :: back.map (·.loc))
+    let core1 : Loc := .simple ⟨h1.1, h1.2, .fwd⟩
+    let forw := specWalk rule.cutoff dist (extOK rule) (fun g => locationContainsOther core1 g.loc) last (walkForward r core)
+    some (hullIv (core1 :: forw.map (·.loc)))
+  | _, _ => none
+
+def insIv (x : Iv) : List Iv → List Iv
+  | [] => [x]
+  | y :: ys => if x.1 < y.1 || (x.1 == y.1 && x.2 < y.2) then x :: y :: ys
+               else if x == y then y :: ys else y :: insIv x ys
+def sortIvSet (l : List Iv) : List Iv := l.foldr insIv []
+
+/-- the cores expected for a rule with EXTENDERS on a linear record: every chain's hull extended by
+    the admitted genes, extended cores within the cutoff of each other joined -/
+def extendedHulls (r : Rec) (rule : RuleM) : Option (List Iv) :=
+  let hulls := (chainsOf r rule).map fun c => extendedHull r rule (hullIv (c.map (·.loc)))
+  if hulls.any (·.isNone) then none else some (hulls.filterMap id)
+
+def expectedExtCores (r : Rec) (rule : RuleM) : Option (List Iv) :=
+  (extendedHulls r rule).map fun hulls =>
+    sortIvSet ((components (nearB 0 rule.cutoff) (hulls.map fun x => Loc.simple ⟨x.1, x.2, .fwd⟩)).map hullIv)
+
+/-- are the reported cores of a rule with EXTENDERS the expected ones?  Without superiors exactly; with
+    superiors (some extended cores may have been dropped before the joining) every reported core must be
+    the span of the extended cores it contains -/
+def extCoresOK (r : Rec) (rule : RuleM) (got : List Iv) : Bool :=
+  match extendedHulls r rule, expectedExtCores r rule with
+  | some hulls, some expected =>
+    if rule.superiors.isEmpty then sortIvSet got == expected
+    else got.all fun g =>
+      let inside := hulls.filter fun h => decide (g.1 ≤ h.1) && decide (h.2 ≤ g.2)
+      !inside.isEmpty && (minList (inside.map (·.1)), maxList (inside.map (·.2))) == g
+  | _, _ => false
+
 def verdictRule (r : Rec) (rules : List RuleM) (impl : List ImplPC) (rule : RuleM) : Verdict :=
   let chains := chainsOf r rule
   let mine := impl.filter (·.rule == rule.name)
@@ -219,6 +306,8 @@ def verdictRule (r : Rec) (rules : List RuleM) (impl : List ImplPC) (rule : Rule
     { stats with ok := false, why := s!"{rule.name}: a core is not the smallest span covering its chain" }
   else if !(chains.all fun c => (mine.filter fun pc => coreCovers r pc.core c).length ≤ 1) then
     { stats with ok := false, why := s!"{rule.name}: a chain lies in more than one protocluster" }
+  else if !plain && !r.circular && !extCoresOK r rule (mine.map fun pc => (pc.core.start, pc.core.end)) then
+    { stats with ok := false, why := s!"{rule.name}: a core is not its chain plus the genes admitted by EXTENDERS" }
   else
     -- chains without a protocluster / with one: the superiors clause
     let judgeable := !r.circular && (rules.all fun x => x.extenders.isNone)
